@@ -230,7 +230,7 @@ def _fold_returns(stmts, depth=0):
     return None
 
 
-def _unroll_literal_loops(stmts):
+def _unroll_literal_loops(stmts, consts=None):
     """in a freshly written-out helper body: `T = ((A, 'x'), (B, 'y'))` + `for p, r in T: <body>` (T used nowhere else) becomes the bodies
     with p, r replaced by the elements - what the code looked like before the table-driven helper was introduced.  Only for tables of
     names / constants, loops without break / continue / else whose variables the body does not assign."""
@@ -254,6 +254,8 @@ def _unroll_literal_loops(stmts):
         src = None
         if isinstance(it, ast.Name) and it.id in tables and uses.get(it.id) == 2:      # the binding and this loop
             src, it = it.id, tables[it.id].value
+        elif isinstance(it, ast.Name) and consts and it.id in consts and it.id not in tables and isinstance(consts[it.id], (ast.Tuple, ast.List)):
+            it = consts[it.id]          # a table kept in a module-level constant (bound once, see the caller)
         if not isinstance(it, (ast.Tuple, ast.List)) or not it.elts or len(it.elts) > 12:
             out.append(st)
             continue
@@ -478,7 +480,10 @@ def build_overlay(ctx):
                 out = pro + conv
         except NotInlinable:
             return None
-        out = [x for x in _unroll_literal_loops(out) if not (isinstance(x, ast.Assign) and len(x.targets) == 1 and isinstance(x.targets[0], ast.Name)
+        mconsts = {k_: v_[0] for k_, v_ in owner.module.assigns.items() if len(v_) == 1}
+        local_names = {n.id for x in out for n in ast.walk(x) if isinstance(n, ast.Name) and isinstance(n.ctx, ast.Store)}
+        mconsts = {k_: v_ for k_, v_ in mconsts.items() if k_ not in local_names}
+        out = [x for x in _unroll_literal_loops(out, mconsts) if not (isinstance(x, ast.Assign) and len(x.targets) == 1 and isinstance(x.targets[0], ast.Name)
                                                           and isinstance(x.value, ast.Name) and x.value.id == x.targets[0].id)]
         for x in out:
             ast.copy_location(x, st)
